@@ -120,36 +120,35 @@ structure Dec where
   exp : Int
   deriving DecidableEq, Repr, Inhabited
 
+/-- the fraction of a decimal literal, read after the integer digits: `(fraction digits, what follows)`.
+    A `.` is consumed even when no digit follows it (`5.`). -/
+def fracOf (t1 : Str) : Str × Str :=
+  match t1 with
+  | '.' :: r => (r.takeWhile isDigit, r.dropWhile isDigit)
+  | _ => ([], t1)
+
+/-- the exponent of a decimal literal: `e`/`E`, optional sign, at least one digit — otherwise nothing is consumed -/
+def expOf (t2 : Str) : Int × Str :=
+  match t2 with
+  | c :: r =>
+    if c == 'e' || c == 'E' then
+      let sg := signOf r
+      let ed := sg.2.takeWhile isDigit
+      if ed.isEmpty then (0, t2)
+      else ((if sg.1 then - (digitsVal ed : Int) else (digitsVal ed : Int)), sg.2.dropWhile isDigit)
+    else (0, t2)
+  | [] => (0, t2)
+
 /-- `strtod` restricted to the decimal grammar `ws* [+-]? (d+ (. d*)? | . d+) ([eE] [+-]? d+)?`; `none` when no
     conversion.  (Hexadecimal, `inf`, `nan` forms are outside the model; the generator does not produce them.) -/
 def strtod (s : Str) : Option (Dec × Str) :=
   let st := signOf (s.dropWhile isSpace)
-  let neg := st.1
-  let t := st.2
-  let ip := t.takeWhile isDigit
-  let t1 := t.dropWhile isDigit
-  let (fp, t2, dot) := match t1 with
-    | '.' :: r => (r.takeWhile isDigit, r.dropWhile isDigit, true)
-    | _ => ([], t1, false)
-  if ip.isEmpty && fp.isEmpty then none
+  let ip := st.2.takeWhile isDigit
+  let fr := fracOf (st.2.dropWhile isDigit)
+  if ip.isEmpty && fr.1.isEmpty then none
   else
-    -- "5." consumes the dot; ".5" ok; a lone "." was excluded above
-    let t2 := if dot then t2 else t1
-    let mant := digitsVal (ip ++ fp)
-    let e0 : Int := - (fp.length : Int)
-    let (e1, t3) : Int × Str := match t2 with
-      | c :: r =>
-        if c == 'e' || c == 'E' then
-          let (eneg, r') := match r with
-            | '-' :: q => (true, q)
-            | '+' :: q => (false, q)
-            | _ => (false, r)
-          let ed := r'.takeWhile isDigit
-          if ed.isEmpty then (0, t2)
-          else ((if eneg then - (digitsVal ed : Int) else (digitsVal ed : Int)), r'.dropWhile isDigit)
-        else (0, t2)
-      | [] => (0, t2)
-    some ({ neg := neg, mant := mant, exp := e0 + e1 }, t3)
+    let ex := expOf fr.2
+    some ({ neg := st.1, mant := digitsVal (ip ++ fr.1), exp := - (fr.1.length : Int) + ex.1 }, ex.2)
 
 /-- `esl_str_IsReal` -/
 def isReal (s : Str) : Bool :=
